@@ -525,6 +525,14 @@ func lockStates(fn *ssa.Function) map[ssa.Instruction]string {
 
 func fxSyncish(fn *ssa.Function) bool {
 	r := fn.Signature.Recv().Type().String()
+	// an atomic store is still a store: it publishes state that a concurrent call reads (three
+	// atomics updated one by one are not one atomic update); only loads are free
+	if strings.Contains(r, "sync/atomic") {
+		switch fn.Name() {
+		case "Store", "Add", "Swap", "CompareAndSwap", "And", "Or":
+			return false
+		}
+	}
 	for _, p := range []string{"sync.", "sync/atomic", "os.File", "log.Logger", "reflect.", "strconv.", "time.", "testing."} {
 		if strings.Contains(r, p) {
 			return true
